@@ -222,6 +222,12 @@ def check_values(rec, case):
     taus = np.asarray(case["taus"], dtype=float)
     n, k = len(y_test), len(taus)
     y_tau = y_tau.reshape(n, k)
+    if case.get("mixed"):
+        with np.errstate(over="ignore"):
+            y32 = y_tau.astype(np.float32)
+        if np.isfinite(y32).all():
+            y_tau = y32          # the estimates are these single-precision values
+            rec.count("quantile_score.mixed_precision_calls")
     combo = tuple(case["combo"])
     yt, yo, tq = shape_arrays(y_tau, y_test, taus, combo)
     rec.ev()
@@ -303,6 +309,7 @@ def shrink_values(case, ij):
     k = len(case["taus"])
     yt = np.asarray(case["y_tau"]).reshape(n, k)
     return {"sub": "values", "kind": case.get("kind"), "dtype": case.get("dtype", "float64"),
+            "mixed": case.get("mixed"),
             "y_tau": [[yt[i, j].item()]], "y_test": [np.asarray(case["y_test"])[i].item()],
             "taus": [float(case["taus"][j])], "combo": ["nk", "n", "array"]}
 
@@ -604,6 +611,26 @@ def check_rel(rec, case):
         if n >= 2 and len(np.unique(yt)) >= 2:
             rec.nontriv([name, mode, shapes, bucket(n), case.get("kind")],
                         [sha(yp, yt), p, scale])
+    # input form: prediction and truth stored as narrow integers (counts, digital numbers); predictions
+    # exactly 50 percent too high / too low
+    if np.all(yt == np.rint(yt)) and np.all(np.abs(yt) <= 4) and np.all(yt != 0) and not case.get("only_fn"):
+        for dtype, unit in ((np.int8, 10), (np.int16, 1000), (np.int32, 10 ** 8)):
+            ti = (np.rint(yt) * unit).astype(dtype)
+            for sign, label in ((1, "high"), (-1, "low")):
+                pi = (ti + sign * (ti // 2)).astype(dtype)
+                for name, fn, claimed in (("mape", scores.mape, 50.0), ("bias", scores.bias, 50.0 * sign)):
+                    rec.ev()
+                    rec.count(name + ".narrow_integer_calls")
+                    try:
+                        r = float(np.asarray(fn(pi, ti)).reshape(-1)[0])
+                    except Exception as exc:
+                        r = exc
+                    if isinstance(r, Exception) or not abs(r - claimed) <= 1e-9:
+                        rec.violation(name + "-formula", dict(case, sub="rel", narrow=str(np.dtype(dtype))),
+                                      {"function": name, "why": "narrow integer arrays, predictions 50 percent " + label,
+                                       "dtype": str(np.dtype(dtype)), "got": repr(r), "claimed": claimed,
+                                       "truth": ti[:4].tolist(), "prediction": pi[:4].tolist()})
+                        return
 
 
 def classify_rel(name, fn, yp, yt, shapes, kcols, want, tol):
@@ -677,6 +704,9 @@ def gen_case(seed, shard, i):
     combo = combos[int(rng.integers(0, len(combos)))]
     out["values"] = {"kind": kind, "dtype": dtype, "y_tau": est, "y_test": yo, "taus": vt,
                      "combo": list(combo)}
+    if dtype == "float64" and i % 4 == 1:
+        # estimates in single precision (a network's output) scored against float64 observations
+        out["values"]["mixed"] = True
     # -- rejects ------------------------------------------------------------
     hows = ["test_longer", "test_shorter", "tau_ragged", "test_2col"]
     kk = int(rng.choice([1, 2, 3, 4, 7]))
